@@ -330,8 +330,10 @@ impl EmitContext {
             if let Some(resolved) = unqualified_flow_targets.get(&target) {
                 add_flow_count_flags(&mut flow_count_flags, resolved, flags);
             } else if target.contains('.') {
-                // Already qualified path
-                add_flow_count_flags(&mut flow_count_flags, &target, flags);
+                // Already qualified path: a knot/stitch path, or an authored label
+                // path (e.g. `knot.label`) that lives at a different runtime path.
+                let resolved = qualified_choice_labels.get(&target).unwrap_or(&target);
+                add_flow_count_flags(&mut flow_count_flags, resolved, flags);
             } else {
                 // Try to resolve through qualified choice labels (gather labels).
                 // A bare name like "ans_agent" may correspond to one or more
